@@ -48,6 +48,49 @@ class ClassInfo:
                    (isinstance(d, ast.Attribute) and d.attr == "abstractmethod") for d in m.decorator_list)
 
 
+def const_value(prog: "Program", owner: Optional["ClassInfo"], e: Optional[ast.AST], depth: int = 0):
+    """
+    Value of a constant expression as the interpreter would bind it at definition time: literals, names of class attributes (of
+    the defining class or its bases) and module-level constants, unary minus and arithmetic of those; None if not constant.
+    """
+    if e is None or depth > 5:
+        return None
+    try:
+        return ast.literal_eval(e)
+    except Exception:
+        pass
+    if isinstance(e, ast.Name) and owner is not None:
+        for c in prog.mro(owner):
+            for st in c.node.body:
+                if isinstance(st, ast.Assign) and any(isinstance(t, ast.Name) and t.id == e.id for t in st.targets):
+                    return const_value(prog, c, st.value, depth + 1)
+                if isinstance(st, ast.AnnAssign) and isinstance(st.target, ast.Name) and st.target.id == e.id and st.value is not None:
+                    return const_value(prog, c, st.value, depth + 1)
+        if e.id in owner.module.assigns:
+            return const_value(prog, owner, owner.module.assigns[e.id], depth + 1)
+        return None
+    if isinstance(e, ast.Attribute) and isinstance(e.value, ast.Name) and owner is not None and e.value.id in ("self", "cls", owner.name):
+        return const_value(prog, owner, ast.Name(id=e.attr, ctx=ast.Load()), depth + 1)
+    if isinstance(e, ast.UnaryOp) and isinstance(e.op, ast.USub):
+        v = const_value(prog, owner, e.operand, depth + 1)
+        return -v if isinstance(v, (int, float)) else None
+    if isinstance(e, ast.BinOp):
+        a, b = const_value(prog, owner, e.left, depth + 1), const_value(prog, owner, e.right, depth + 1)
+        if isinstance(a, (int, float)) and isinstance(b, (int, float)):
+            try:
+                if isinstance(e.op, ast.Add):
+                    return a + b
+                if isinstance(e.op, ast.Sub):
+                    return a - b
+                if isinstance(e.op, ast.Mult):
+                    return a * b
+                if isinstance(e.op, ast.Div):
+                    return a / b
+            except ZeroDivisionError:
+                return None
+    return None
+
+
 class Program:
     def __init__(self, src: Source) -> None:
         self.src = src
